@@ -370,7 +370,25 @@ pub(super) fn apply_renaming(
     toplevels: toplevels
       .iter()
       .map(|toplevel| match toplevel {
-        Toplevel::Interface(i) => Toplevel::Interface(i.clone()),
+        Toplevel::Interface(i) => {
+          // The parameters of a method signature can be renamed too (they have no uses).
+          let mut i = i.clone();
+          for member in &mut i.members.members {
+            member.parameters.parameters = Arc::new(
+              member
+                .parameters
+                .parameters
+                .iter()
+                .map(|AnnotatedId { name, type_, annotation }| AnnotatedId {
+                  name: mod_def_id(name, definition_and_uses, new_name),
+                  type_: *type_,
+                  annotation: annotation.clone(),
+                })
+                .collect(),
+            );
+          }
+          Toplevel::Interface(i)
+        }
         Toplevel::Class(c) => Toplevel::Class(ClassDefinition {
           loc: c.loc,
           associated_comments: c.associated_comments,
